@@ -376,6 +376,68 @@ pub fn run_c20(a: &Args) {
     println!("mode=c20 thread_histories={histories} disagreements={}", bad.len());
 }
 
+
+/// C18 on the REAL value type (oracle only, no model): parse_val(text).partial(i).eval(point) against central differences of
+/// parse_val(text).eval around the point, for arithmetic, every differentiable elementary function of the value table and
+/// piecewise expressions; points are floats, and integers where the expression accepts them.  A derivative that evaluates
+/// to an error value where the function itself evaluates to numbers around the point is a failure.
+pub fn run_c18v(a: &Args) {
+    use exmex::{parse_val, Differentiate, Express, Val};
+    type V = Val<i32, f64>;
+    let mut r = Rng::new(a.seed ^ 0x1818);
+    let num = |v: &V| -> Option<f64> { match v { Val::Float(f) => Some(*f), Val::Int(i) => Some(*i as f64), _ => None } };
+    let funs = ["sin", "cos", "tan", "asin", "acos", "atan", "sinh", "cosh", "tanh", "exp", "ln", "log", "log2", "log10", "sqrt"];
+    let mut texts: Vec<String> = vec!["x/2", "3*x/4", "x*x/8", "x/y", "x^2", "x^y", "2^x", "x*y-y/x", "-x*x", "1/(x*x+1)", "x/2 if x > 1 else 3*x/4", "(x*x) if x > y else (x/3)",
+        "2*((x*y) if x < y else (x+y))+x", "(x/3) if x != 2 else (y/3)", "sin(x) if x >= y else cos(x)*y", "-(x*x if x > 1 else x)", "(x if x > 1 else x*x) * (y if y <= 1 else 2*y)",
+        "log10(x*x+1) if x > 0.5 else log2(x+3)", "sqrt(x+2) if y != 0.5 else x^3"].iter().map(|s| s.to_string()).collect();
+    for f in funs { texts.push(format!("{f}(x/3+0.2)")); texts.push(format!("y*{f}(0.3*x+0.1)+x")); texts.push(format!("{f}(0.4) * x + {f}(x/4+0.1) if x > 0.6 else {f}(0.2+x/5)")); }
+    for _ in 0..a.n { let f1 = funs[r.below(funs.len())]; let f2 = funs[r.below(funs.len())]; let c = ["x > 0.7", "y <= 0.5", "x < y", "x + y > 1.3", "x != 2", "x == y"][r.below(6)];
+        texts.push(format!("({f1}(x/4+0.15)*y) if {c} else ({f2}(0.1+y/5)+x/3)")); }
+    let pts: Vec<Vec<f64>> = vec![vec![0.3, 0.8], vec![0.9, 0.4], vec![1.3, 0.2], vec![0.55, 0.55001], vec![2.0, 3.0], vec![1.0, 2.0], vec![3.0, 1.0], vec![0.37, 0.453]];
+    struct C { note: String, family: &'static str, ok: bool, onote: String, answer: String }
+    let mut cases: Vec<C> = vec![];
+    for text in &texts {
+        let Ok(e) = parse_val::<i32, f64>(text) else { cases.push(C { note: text.clone(), family: "val-derivative", ok: false, onote: "the text does not parse".into(), answer: String::new() }); continue };
+        let nv = e.var_names().len();
+        for idx in 0..nv {
+            let d = match e.clone().partial(idx) { Ok(d) => d, Err(er) => { cases.push(C { note: format!("d/dv{idx} {text}"), family: "val-derivative", ok: false, onote: format!("partial failed: {er}"), answer: String::new() }); continue } };
+            for pt in &pts {
+                for ints in [false] {
+                    // integer points only where every coordinate is integral
+                    if ints && pt.iter().any(|c| c.fract() != 0.0) { continue }
+                    let mk = |p: &[f64]| -> Vec<V> { p[..nv].iter().map(|c| if ints { Val::Int(*c as i32) } else { Val::Float(*c) }).collect() };
+                    let fl = |p: &[f64]| -> Vec<V> { p[..nv].iter().map(|c| Val::Float(*c)).collect() };
+                    let h = 1e-6;
+                    let (mut lo, mut hi) = (pt.clone(), pt.clone()); lo[idx] -= h; hi[idx] += h;
+                    let (f0, flo, fhi) = (e.eval(&mk(pt)), e.eval(&fl(&lo)), e.eval(&fl(&hi)));
+                    let (Ok(f0), Ok(flo), Ok(fhi)) = (f0, flo, fhi) else { continue };
+                    let (Some(_), Some(vlo), Some(vhi)) = (num(&f0), num(&flo), num(&fhi)) else { continue };
+                    // skip branch boundaries: a condition changes between the two sides
+                    let (lo2, hi2) = ({ let mut q = pt.clone(); q[idx] -= 50.0 * h; q }, { let mut q = pt.clone(); q[idx] += 50.0 * h; q });
+                    let (Ok(a2), Ok(b2)) = (e.eval(&fl(&lo2)), e.eval(&fl(&hi2))) else { continue };
+                    let (Some(a2), Some(b2)) = (num(&a2), num(&b2)) else { continue };
+                    let want = (vhi - vlo) / (2.0 * h); let want2 = (b2 - a2) / (100.0 * h);
+                    if !want.is_finite() || (want - want2).abs() > 1e-3 * (1.0 + want.abs()) { continue }
+                    // the point itself lies on the branch of its neighbours, and the one-sided slopes agree (no kink, no isolated point)
+                    let v0 = num(&f0).unwrap();
+                    let (left, right) = ((v0 - vlo) / h, (vhi - v0) / h);
+                    if (left - right).abs() > 1e-3 * (1.0 + want.abs()) { continue }
+                    let got = d.eval(&mk(pt));
+                    let (ok, onote) = match &got { Ok(v) => match num(v) { Some(g) => ((g - want).abs() <= 2e-3 * (1.0 + want.abs()), format!("central differences give {want}")), None => (false, format!("the derivative evaluates to {v:?}, central differences give {want}")) }, Err(er) => (false, format!("the derivative fails to evaluate ({er}), central differences give {want}")) };
+                    cases.push(C { note: format!("d/dv{idx} {text} at {:?}{}", &pt[..nv], if ints { " (integers)" } else { "" }), family: "val-derivative", ok, onote: if ok { String::new() } else { onote }, answer: format!("{got:?}") });
+                }
+            }
+        }
+    }
+    std::fs::create_dir_all(&a.out).unwrap();
+    let mut f = std::io::BufWriter::new(std::fs::File::create(format!("{}/meta.json", a.out)).unwrap());
+    writeln!(f, "{{\"shard_size\": 1, \"n_shards\": 0, \"tables\": [[]], \"cases\": [").unwrap();
+    let items: Vec<String> = cases.iter().map(|c| format!("{{\"tb\": 0, \"family\": {}, \"note\": {}, \"prog\": {}, \"size\": 3, \"nontrivial\": true, \"oracle_ok\": {}, \"oracle_note\": {}, \"answers\": [[\"eval\", {}]]}}",
+        json_str(c.family), json_str(&c.note), json_str(&format!("parse_val({})", c.note)), c.ok, json_str(&c.onote), json_str(&c.answer))).collect();
+    writeln!(f, "{}\n]}}", items.join(",\n")).unwrap();
+    println!("mode=c18v cases={} oracle_failures={}", cases.len(), cases.iter().filter(|c| !c.ok).count());
+}
+
 /// regenerates coq/Gen/Tables.v from the implementation's own operator tables and derivative rule names
 pub fn dump_tables(path: &str) {
     use crate::term::{float_table, val_table, g_table};
